@@ -12,7 +12,7 @@ for d in sorted(glob.glob(os.path.join(HERE, "seeded", "*-m*"))):
         "id": sid, "breaks_property": conf.get("property", sid.split("-")[0]),
         "needs_to_manifest": det.get("needs", ""),
         "origin": "independent sub-agent given only the property text and a scratch worktree",
-        "confirmation": {"ran": "tools/confirm_seed.sh: scratch worktree (waves 1-4: pinned commit 4ec40cd; wave 5 = m3/m4: HEAD with the fix commits); demo without patch, apply patch, demo with patch, "
+        "confirmation": {"ran": "tools/confirm_seed.sh: scratch worktree (waves 1-4: pinned commit 4ec40cd; wave 5 onwards: HEAD of /repo at the time, with the fix: commits made until then); demo without patch, apply patch, demo with patch, "
                                 "full pinned suite (pytest -n 4, junit) compared with BASELINE.json stable_pass",
                          **{k: conf.get(k) for k in ("demo_exit_unmodified", "demo_exit_with_patch", "pinned_tests_expected",
                                                      "pinned_tests_passing_with_patch", "confirmed")}},
